@@ -3,7 +3,7 @@
  "name": "jw_add_revoke_to_trans_1k",
  "props": ["C14", "C03"],
  "level": "U/iter",
- "tier": "wip",
+ "tier": "quick",
  "tier_after_hooks": "quick",
  "harness": "h_add_revoke",
  "loop_contracts": true,
@@ -15,7 +15,7 @@
  "assumes": [
    "NEEDS the hook in hooks-pending/jw.diff (named loop anchors in debugfs/do_journal.c)",
    "no contract enforced on journal_add_revoke_to_trans: the statement is carried by ghost monitors in the callee stubs (jw_stubs.h) and by harness CHECKs",
-   "callees are stubs: getblk (may fail), ll_rw_block / brelse (device write = monitored event, may fail), mark_buffer_dirty, jbd2_journal_bmap (physical = logical + constant, may fail), ext2fs_blocks_count (constant; it is called exactly once per list entry, before the entry is stored, and serves as the monitor's record counter), jbd2_revoke_csum_set (stores an ARBITRARY value in the checksum tail when checksums are on and records the block at that moment; the real one: unit jw_descr_block_csum_set)",
+   "callees are stubs: getblk (succeeds; the ENOMEM return is not exercised), ll_rw_block (device write = monitored event, may fail), brelse (a buffer still dirty at its release is reported unless a write failed before), mark_buffer_dirty, jbd2_journal_bmap (physical = logical + constant, may fail), ext2fs_blocks_count (constant; it is called exactly once per list entry, before the entry is stored, and serves as the monitor's record counter), jbd2_revoke_csum_set (stores an ARBITRARY value in the checksum tail when checksums are on and records the block at that moment; the real one: unit jw_descr_block_csum_set)",
    "U/iter: proved for the first iteration from the real initial state and for one iteration from an arbitrary state satisfying the proved invariant (fill offset = 16 + records * record size, header intact, records already in the block = the list entries in order, nothing pending); the epilogue (last revoke block) from an arbitrary such state",
    "pointwise: ONE arbitrary record number g_rr of the block being filled and ONE arbitrary byte offset g_kd of the block stand for all",
    "j_blocksize 1024 (this unit) / 4096 (unit _4k); j_format_version 1 or 2; journal superblock arbitrary (32/64-bit records, with and without checksum tail); revoke list of up to JW_MAXLEN = 2^20 arbitrary entries",
@@ -30,7 +30,7 @@
  "name": "jw_add_revoke_to_trans_4k",
  "props": ["C14", "C03"],
  "level": "U/iter",
- "tier": "wip",
+ "tier": "thorough",
  "tier_after_hooks": "thorough",
  "timeout": 900,
  "harness": "h_add_revoke",
